@@ -350,14 +350,15 @@ def case(ctx, rng, idx):
                 return
     # the result must be independent of the original: edit it and look at the original again
     Hn[("__probe__",)] += 1
-    for v in Hn._constraints.values():
+    lists_ = list((getattr(Hn, "_constraints", None) or {}).values())      # (the record lists themselves, where the library keeps them under this name)
+    for v in lists_:
         v.append(type(Hn)())
     ctx.count("independence-probes")
     if dict(Hs) != snap or Hs.constraints != snap_cons or (Hs.name, Hs.mapping, Hs.variables, Hs.num_binary_variables) != label_state:
         ctx.violation("subs:result-aliases-original", "editing the substituted model changed the original (terms, constraints, mapping or variables)", w)
         return
     Hn[("__probe__",)] -= 1
-    for v in Hn._constraints.values():
+    for v in lists_:
         v.pop()
     if Hn.num_ancillas != Hc.num_ancillas:
         ctx.violation("subs:num_ancillas-differs", "num_ancillas %r vs %r" % (Hn.num_ancillas, Hc.num_ancillas), w)
